@@ -652,9 +652,11 @@ def run_chain(scen, ops, _memo={}):
 
 
 def run_batch(batch):
-    """batch of (scenario, ops) chains -> in-batch distinct steps [(hash, step, chain ref)] + number of calls"""
-    out, seen, ncalls = [], set(), 0
-    for scen, ops in batch:
+    """batch of (scenario, ops) chains -> in-batch distinct steps [(hash, step, chain ref)] + number of calls + chains run.
+    A chain marked (scenario, ops, "screen") is dropped if its data tokens cannot be told apart (seeded draws)"""
+    out, seen, ncalls, nrun = [], set(), 0, 0
+    for scen, ops in ((c[0], c[1]) for c in batch if len(c) == 2 or _usable(c[0], c[1])):
+        nrun += 1
         for k, (pre, op, obs, exc) in enumerate(run_chain(scen, ops)):
             ncalls += 1
             step = {"pre": pre, "op": op, "obs": obs}
@@ -662,7 +664,7 @@ def run_batch(batch):
             if h not in seen:
                 seen.add(h)
                 out.append((h, step, {"scen": scen, "ops": ops, "step": k, "exc": exc}))
-    return out, ncalls
+    return out, ncalls, nrun
 
 
 # ---------------------------------------------------------------------------------
@@ -679,8 +681,10 @@ class Steps:
     def add_chains(self, chains, batch=300):
         batches = [chains[i:i + batch] for i in range(0, len(chains), batch)]
         new = []
-        for out, ncalls in pmap(run_batch, batches, chunk=1):
+        nrun = 0
+        for out, ncalls, n in pmap(run_batch, batches, chunk=1):
             self.calls += ncalls
+            nrun += n
             for h, step, ref in out:
                 if h not in self.byhash:
                     self.byhash[h] = len(self.recs)
@@ -688,7 +692,8 @@ class Steps:
                     self.recs.append(rec)
                     self.refs.append(ref)
                     new.append(rec)
-        self.chains += len(chains)
+        self.chains += nrun
+        self.last_run = nrun
         return new
 
 
@@ -696,8 +701,24 @@ def ndim_class(pre):
     return "%dd" % len(pre["shape"])
 
 
+def _weight(rec):
+    """rough size of a step record (bytes of JSON): wide tables make heavy records"""
+    nf = len(rec["pre"]["fields"]) + len(rec["obs"]["arr"]["fields"]) + len(rec["op"]["add"]) + len(rec["op"]["names"]) // 4 + \
+        sum(len(o["fields"]) for o in rec["op"]["others"])
+    return 400 + 130 * nf
+
+
 def judge(ctx, steps, recs, what, tally):
-    rejects = tracecheck.validate(ctx, "FieldOpsTrace.tla", recs, what=what, shard_size=6000)
+    # TLC reads a whole shard into memory (2 GB heap): at most ~60 MB of records per shard, five shards at a time
+    rejects, group, w = {}, [], 0
+    for rec in list(recs) + [None]:
+        if rec is not None:
+            group.append(rec)
+            w += _weight(rec)
+        if group and (rec is None or w >= 5 * 60e6):
+            nsh = max(1, min(5, max(int(w // 60e6) + 1, (len(group) + 5999) // 6000)))
+            rejects.update(tracecheck.validate(ctx, "FieldOpsTrace.tla", group, what=what, shard_size=(len(group) + nsh - 1) // nsh))
+            group, w = [], 0
     for rid in sorted(rejects):
         rec, ref = steps.recs[rid - 1], steps.refs[rid - 1]
         for cl in rejects[rid]:
@@ -751,10 +772,6 @@ def rand_type(rng, outer_names, depth=0, wide=False):
         t = rng.choice(_CAT[:_NLEAF_INSIDE] if depth and rng.random() < 0.9 else _CAT)
         if not (wide and t[0] in ("i1", "u1")):          # (with the many tokens of a wide table two 1-byte fields would coincide)
             return t
-
-
-def _usable_batch(cands):
-    return [_usable(scen, ops) for scen, ops in cands]
 
 
 def _usable(scen, ops):
@@ -870,14 +887,14 @@ BOUNDS = {
         wide=[dict(Shapes={0, 1, 2}, NFields={9, 33}, Rots={2}, MaxDepth=1, Names1=2, NamesN=1, LeanFrom=1, Forms1={"list"}, Marks={1, 2, 8, 9, 17, 32})],
         seeded=1500),
     "thorough": dict(
-        single=dict(Shapes={0, 1, 2}, NFields={1, 2, 3, 4}, Rots=set(range(24)), MaxDepth=1, Names1=3, NamesN=1, LeanFrom=1,
+        single=dict(Shapes={0, 1, 2}, NFields={1, 2, 3, 4}, Rots=set(range(12)) | {12, 14, 16, 18, 20, 22}, MaxDepth=1, Names1=3, NamesN=1, LeanFrom=1,
                     Forms1={"list", "tuple", "ndarray", "scalar"}),
         chains=[dict(Shapes={s}, NFields={nf}, Rots={r}, MaxDepth=3, Names1=1, NamesN=1, LeanFrom=3, Forms1={"list"})
                 for s, nf, r in ((0, 2, 1), (1, 3, 6), (2, 2, 12), (2, 3, 4), (0, 3, 19), (1, 2, 7))] +
                [dict(Shapes={0, 1, 2}, NFields={2, 3}, Rots={0, 7, 14, 21}, MaxDepth=2, Names1=2, NamesN=2, LeanFrom=2, Forms1={"list"})],
-        wide=[dict(Shapes={0, 1, 2}, NFields={9, 10}, Rots={0, 17}, MaxDepth=1, Names1=3, NamesN=1, LeanFrom=1, Forms1={"list", "ndarray"}, Marks={1}),
+        wide=[dict(Shapes={0, 1, 2}, NFields={9}, Rots={0, 17}, MaxDepth=1, Names1=3, NamesN=1, LeanFrom=1, Forms1={"list", "ndarray"}, Marks={1}),
               dict(Shapes={0, 1, 2}, NFields={9}, Rots={5}, MaxDepth=2, Names1=2, NamesN=1, LeanFrom=1, Forms1={"list"}, Marks={1}),
-              dict(Shapes={0, 1, 2}, NFields={16, 17, 33, 40}, Rots={4, 13}, MaxDepth=1, Names1=2, NamesN=1, LeanFrom=1, Forms1={"list"},
+              dict(Shapes={0, 1, 2}, NFields={10, 16, 17, 33, 40}, Rots={4}, MaxDepth=1, Names1=2, NamesN=1, LeanFrom=1, Forms1={"list"},
                    Marks={1, 2, 8, 9, 10, 16, 17, 32}),
               dict(Shapes={0, 1, 2}, NFields={65}, Rots={3}, MaxDepth=1, Names1=2, NamesN=1, LeanFrom=1, Forms1={"list"}, Marks={1, 8, 9, 33, 64})],
         seeded=30000),
@@ -908,7 +925,7 @@ def run(ctx):
     if "MechRefines" not in r.violated:
         raise MachineryError("self-test failed: MechRefines not violated by the deviating mechanism")
     for label, c in configs:
-        small = c["MaxDepth"] == 1 and label.startswith("wide")
+        small = False     # (one run for laws + export pays only for a few hundred narrow states)
         # 1. design level: laws of the statement + mechanism refinement on every transition of every behaviour
         if not small:
             ctx.tlc("FieldOpsMC.tla", what="laws + mechanism refinement, %s" % label,
@@ -934,14 +951,13 @@ def run(ctx):
     # longer seeded chains over a wider dtype catalogue
     rng = random.Random(ctx.seed)
     nseed = B["seeded"]
-    sch = []
-    while len(sch) < nseed:
-        # (drawn one after the other from the seeded generator, screened in parallel, kept in the order drawn)
-        cand = [seeded_chain(rng) for _ in range(max(64, int(1.3 * (nseed - len(sch)))))]
-        oks = pmap(_usable_batch, [cand[i:i + 16] for i in range(0, len(cand), 16)], chunk=1)
-        sch += [c for c, ok in zip(cand, [o for part in oks for o in part]) if ok]
-    del sch[nseed:]
-    steps.add_chains(sch)
+    want, nseed, sch = nseed, 0, []
+    while nseed < want:
+        # drawn one after the other from the seeded generator; the workers drop the draws whose data tokens would
+        # coincide (1-byte kinds of one element, flags of a 0-d array) - about one in eight
+        sch = [seeded_chain(rng) + ("screen",) for _ in range(max(100, int(1.16 * (want - nseed))))]
+        steps.add_chains(sch, batch=max(8, min(300, len(sch) // 80)))
+        nseed += steps.last_run
     ctx.sample({"seeded_initial": sch[0][0]["init"], "operations": [{k: v for k, v in o.items() if v not in ([], "")} for o in sch[0][1]]}, cap=8)
     # 3. code -> spec: every distinct step observed (exported behaviours and seeded chains) is judged by the trace specification
     judge(ctx, steps, steps.recs, "judge every distinct step observed (FieldOpsTrace)", tally)
